@@ -36,6 +36,21 @@ CHECKS = {
          "Every operator and function applied to every operand tuple over a 12-atom type alphabet (integer/boolean/enum constants, fields and parameters, a same-named enum from an import, struct and array fields), placed in each of 14 positions (offset, size, three array-dimension positions, condition, field and struct [requires], virtual value, integer and enum parameter argument, enum value, maximum_bits, is_signed); thorough adds depth-2 compositions. Accept iff the documented signature and the position's required type are met; rejected cases must produce a located, non-synthetic error inside the construct; no exception may escape.",
          "Trusted: signature table in checks/c13.py transcribed from doc/language-reference.md. Unspecified (not compared): ordering comparisons of two values of one enum, enum-valued enum values, struct/array operands of ?: in alias position, $present(parameter) verdict.",
          "DESIGN.md section 3, C13"),
+ "C01": ("exploration",
+         "deviation-bounded exhaustive enumeration of .emb programs x parameter tuples x prefix-closed buffer sets, executed through the real compiler and g++, compared observation by observation with a reference semantics on the generator's AST",
+         "All EmbSpace programs within 1 (quick) / 2 (thorough) feature deviations of the default program (21 field types, 8 start forms, 16 existence conditions, attributes, 14 virtual-field forms, parameters, structure requires, byte order) are compiled with the real embossc pipeline and g++; for every parameter tuple and every buffer of every length over per-position alphabets (control fields exhaustive) the view's Ok/IsComplete/SizeIsKnown/size, every field's presence (unknown/true/false), Ok, value, array element counts and elements, recursively through nested structures, equal the reference semantics; everything definite at a prefix keeps its value when a byte is appended.",
+         "Trusted: vk/refsem.py (from the language and C++ references), vk/embgen.py printer, g++ 12, x86-64 LE host. Programs further than 2 deviations from the default and payload values outside the alphabets are not covered. Known findings: array-partial-ok, signed-enum-narrow.",
+         "DESIGN.md section 3, C01"),
+ "C02": ("exploration",
+         "exhaustive enumeration of (offset,width,container,byte order,type) layouts x content alphabets (all 2^c for c<=16) executed on the generated views against a naive one-bit-at-a-time reader",
+         "Every (offset, width) in bits containers of 8,16,24,64 (quick) / 8..64 (thorough) bits, both byte orders, for UInt, Int, Bcd, signed and unsigned enums, Flag and Float, plus byte-level fields at byte offsets 0-8 of sizes 1-8 on bases of every alignment 0-7 (aligned and unaligned view factories): Ok() and Read() equal the reference decode of exactly the covered bits; >10^8 reads per run.",
+         "Trusted: cpp/ref_bits.h. Containers wider than 16 bits use per-field pattern alphabets (all 2^w for w<=12, boundary/single-bit/Bcd-nibble alphabets above). Little-endian x86-64 host only. Known finding: signed-enum-narrow.",
+         "DESIGN.md section 3, C02"),
+ "C03": ("model_checking",
+         "explicit-state: state = buffer contents, transition = CouldWriteValue/TryToWrite of each candidate on each field of each layout, executed on the generated views against a put_bits/representability model; virtual-field writes against the affine pre-image",
+         "Same layouts as C02; for every field, initial contents (00, FF, 5A, every single bit; all 256 for 1-byte containers) x candidate values (all of min-2..max+2 for w<=8, boundary alphabet above) as int64_t/uint64_t/ValueType x complete and truncated store: CouldWriteValue iff representable, TryToWrite iff additionally present, afterwards the buffer equals put_bits(before) bit for bit and Read()==v, failure leaves the buffer unchanged. Aliases (incl. through a nested struct) and all add/subtract shapes to depth 2 (thorough 3), direct and chained through writeable virtuals, with [requires] on virtual and target: success iff the unique pre-image exists and is writable, target and virtual read back.",
+         "Trusted: cpp/ref_bits.h, affine inverse computed by the generator. Known finding: signed-enum-narrow.",
+         "DESIGN.md section 3, C03"),
 }
 NOT_YET = "check not built yet in this round (planned in DESIGN.md section 3); no claim made"
 
